@@ -378,3 +378,451 @@ func runKEYOPAQUE(c *Ctx) {
 	}
 	c.OK("-", "type assertions on user keys/values outside the default comparator/layer", fmt.Sprintf("%d found", n), false)
 }
+
+// ---- GROWSIBS -------------------------------------------------------------------------------
+//
+// canGrow decides whether a level must be added ("some root key belongs above the current height"),
+// grow decides which root keys move up. Both compare a key's layer with the tree's height; they are
+// two statements of one predicate and must agree (cross-check of siblings).
+
+func init() {
+	Register(&Rule{ID: "GROWSIBS", Props: []string{"C04", "C09"}, Min: 2,
+		Doc: "the growth test (the looped (bool, error) test Insert makes on the root) answers true under the same relation between a key's layer and the tree's height under which grow promotes a key into the new root: same comparison after normalising operand order and branch polarity (today: layer > height in both).",
+		Run: runGROWSIBS})
+}
+
+// layerHeightRel: if cond compares a key layer (result of the layer callback) with the height
+// (Mast.height, or an unsigned parameter), the relation "layer REL height" that holds when cond == truth.
+func layerHeightRel(c *Ctx, cond ssa.Value, truth bool) (string, bool) {
+	bin, ok := cond.(*ssa.BinOp)
+	if !ok {
+		return "", false
+	}
+	isLayer := func(v ssa.Value) bool {
+		ex, ok := ir.Origin(v).(*ssa.Extract)
+		if !ok || ex.Index != 0 {
+			return false
+		}
+		call, ok := ex.Tuple.(*ssa.Call)
+		if !ok {
+			return false
+		}
+		if strings.HasPrefix(c.Facts.External(call), "callback:keyLayer") {
+			return true
+		}
+		// a call through a function-typed parameter of the layer shape func(interface{}, uint) (uint8, error)
+		if ir.Callee(call.Call) == nil && !call.Call.IsInvoke() {
+			sig := call.Call.Signature()
+			if sig.Params().Len() == 2 && sig.Results().Len() == 2 && ir.IsErrorType(sig.Results().At(1).Type()) {
+				if b, ok := sig.Results().At(0).Type().Underlying().(*types.Basic); ok && b.Kind() == types.Uint8 {
+					return true
+				}
+			}
+		}
+		return false
+	}
+	isHeight := func(v ssa.Value) bool {
+		if mastFieldLoad(v, "height") {
+			return true
+		}
+		if p, ok := ir.ResolveCell(v).(*ssa.Parameter); ok {
+			if b, ok := p.Type().Underlying().(*types.Basic); ok && b.Kind() == types.Uint8 {
+				return true
+			}
+		}
+		return false
+	}
+	op := bin.Op
+	switch {
+	case isLayer(bin.X) && isHeight(bin.Y):
+	case isLayer(bin.Y) && isHeight(bin.X):
+		// height OP layer  ≡  layer OP' height
+		switch op {
+		case token.LSS:
+			op = token.GTR
+		case token.LEQ:
+			op = token.GEQ
+		case token.GTR:
+			op = token.LSS
+		case token.GEQ:
+			op = token.LEQ
+		}
+	default:
+		return "", false
+	}
+	if !truth {
+		switch op {
+		case token.LSS:
+			op = token.GEQ
+		case token.LEQ:
+			op = token.GTR
+		case token.GTR:
+			op = token.LEQ
+		case token.GEQ:
+			op = token.LSS
+		case token.EQL:
+			op = token.NEQ
+		case token.NEQ:
+			op = token.EQL
+		}
+	}
+	return "layer " + op.String() + " height", true
+}
+
+func runGROWSIBS(c *Ctx) {
+	P := c.P
+	ins := c.MustFunc("(*Mast).Insert")
+	grow := c.MustFunc("(*Mast).grow")
+	if ins == nil || grow == nil {
+		return
+	}
+	// the growth test: as in GROWCHECK
+	var test *ssa.Function
+	for _, ci := range CallsOf(ins) {
+		call, ok := ci.(*ssa.Call)
+		if !ok || !inCycle(call.Block()) || len(call.Call.Args) == 0 || !isNodePtr(call.Call.Args[0].Type()) {
+			continue
+		}
+		res := call.Call.Signature().Results()
+		if res.Len() != 2 || !ir.IsErrorType(res.At(1).Type()) {
+			continue
+		}
+		if b, ok := res.At(0).Type().Underlying().(*types.Basic); !ok || b.Kind() != types.Bool {
+			continue
+		}
+		if f := ir.Callee(call.Call); f != nil && f.Blocks != nil {
+			test = f
+			// its height parameter is fed with the tree's height
+			for i, a := range call.Call.Args {
+				if b, ok := a.Type().Underlying().(*types.Basic); ok && b.Kind() == types.Uint8 {
+					if mastFieldLoad(a, "height") {
+						c.OK(P.InstrPos(call), fmt.Sprintf("argument %d of %s", i, f.Name()), "the tree's height", false)
+					} else {
+						c.Violation(ins, P.InstrPos(call), "growth test not given the tree's height", "the height the test compares key layers with must be Mast.height")
+					}
+				}
+			}
+		}
+	}
+	if test == nil {
+		c.AnchorMissing("the growth test called by Insert")
+		return
+	}
+	// relation under which the test answers true
+	testRel := map[string]ssa.Instruction{}
+	for _, r := range ir.Returns(test) {
+		if v, isC := ir.ConstBool(r.Results[0]); !isC || !v {
+			continue
+		}
+		found := false
+		for _, f := range ir.FactsAt(r.Block()) {
+			if rel, ok := layerHeightRel(c, f.Cond, f.Truth); ok {
+				testRel[rel] = r
+				found = true
+			}
+		}
+		if !found {
+			c.Undecided(test, P.InstrPos(r), "growth test answers true without a layer comparison", "a 'true' return of "+test.Name()+" is not conditioned on a comparison of a key's layer with the height")
+		}
+	}
+	// relation under which grow promotes a key: the block that appends the key to the new root
+	growRel := map[string]ssa.Instruction{}
+	for _, b := range grow.Blocks {
+		if !inCycle(b) {
+			continue
+		}
+		for _, in := range b.Instrs {
+			call, ok := in.(*ssa.Call)
+			if !ok {
+				continue
+			}
+			if bi, ok := call.Call.Value.(*ssa.Builtin); !ok || bi.Name() != "append" {
+				continue
+			}
+			if _, f, ok := nodeSliceRoot(call.Call.Args[0]); !ok || f != "Key" {
+				continue
+			}
+			for _, f := range ir.FactsAt(b) {
+				if rel, ok := layerHeightRel(c, f.Cond, f.Truth); ok {
+					growRel[rel] = call
+				}
+			}
+		}
+	}
+	if len(testRel) == 0 || len(growRel) == 0 {
+		c.Undecided(grow, P.Pos(grow.Pos()), "layer/height comparison not found", fmt.Sprintf("relations found: test %d, grow %d", len(testRel), len(growRel)))
+		return
+	}
+	for rel, at := range testRel {
+		if growRel[rel] != nil {
+			c.OK(P.InstrPos(at), test.Name()+" answers true when "+rel, "grow promotes a key under the same relation ("+P.InstrPos(growRel[rel])+")", false)
+		} else {
+			var others []string
+			for g := range growRel {
+				others = append(others, g)
+			}
+			sort.Strings(others)
+			c.Violation(test, P.InstrPos(at), "growth test and grow disagree on which keys belong above the root",
+				fmt.Sprintf("%s answers true when %s, but grow promotes a key when %s: the tree grows although no key moves up (key-less pass-through roots, height no longer a function of the entries) or fails to grow when one would", test.Name(), rel, strings.Join(others, " / ")))
+		}
+	}
+}
+
+// ---- GROWSHRINK -----------------------------------------------------------------------------
+//
+// height = min(highest key layer, floor(log_bf(size-1))). Insert adds a level when the size allows it AND a root
+// key belongs higher; Delete must remove one when the size no longer allows it OR no key is left in the top
+// layer. The two loops are siblings: they must put the size boundary at the same place and both consult the keys.
+
+func init() {
+	Register(&Rule{ID: "GROWSHRINK", Props: []string{"C04"}, Min: 3,
+		Doc: "(1) with s the size after the operation, Insert grows when s ≥ growAfterSize + cg and Delete shrinks when s ≤ shrinkBelowSize + cs (each normalised from the comparison in the loop test and from whether Mast.size is updated before or after that test); since growAfterSize at height h is shrinkBelowSize at height h+1, the boundaries coincide only if cs = cg − 1 (a tree that grew at s must shrink again at s−1). (2) Insert's growth loop consults the root's keys (the growth test); Delete's shrink loop also consults them (a test of the number of keys in the root): a top layer without keys must go even when the size allows the height.",
+		Run: runGROWSHRINK})
+}
+
+func runGROWSHRINK(c *Ctx) {
+	P := c.P
+	ins, del := c.MustFunc("(*Mast).Insert"), c.MustFunc("(*Mast).Delete")
+	grow, shrink := c.MustFunc("(*Mast).grow"), c.MustFunc("(*Mast).shrink")
+	if ins == nil || del == nil || grow == nil || shrink == nil {
+		return
+	}
+	type bound struct {
+		c   int64
+		at  ssa.Instruction
+		txt string
+	}
+	// find, in fn, the comparison of Mast.size with Mast.<thresh> that guards the call of target
+	find := func(fn, target *ssa.Function, thresh string, lower bool) (*bound, bool) {
+		var tcall ssa.Instruction
+		for _, ci := range CallsOf(fn) {
+			if ir.Callee(ci.Common()) == target {
+				tcall = ci
+			}
+		}
+		if tcall == nil {
+			c.AnchorMissing("call of " + target.Name() + " in " + ir.FuncName(fn))
+			return nil, false
+		}
+		facts := ir.FactsAt(tcall.Block())
+		if !lower {
+			// shrinking is a disjunction (size too small, OR top layer empty): the size part is the outcome of
+			// the size test from which the call is reached unconditionally
+			for _, b := range fn.Blocks {
+				if len(b.Instrs) == 0 {
+					continue
+				}
+				iff, ok := b.Instrs[len(b.Instrs)-1].(*ssa.If)
+				if !ok {
+					continue
+				}
+				for i, sb := range b.Succs {
+					for n := 0; sb != tcall.Block() && len(sb.Succs) == 1 && n < 8; n++ {
+						sb = sb.Succs[0]
+					}
+					if sb == tcall.Block() {
+						facts = append(facts, ir.Fact{Cond: iff.Cond, Truth: i == 0, From: b})
+					}
+				}
+			}
+		}
+		for _, f := range facts {
+			bin, ok := f.Cond.(*ssa.BinOp)
+			if !ok {
+				continue
+			}
+			op := bin.Op
+			var sizeV ssa.Value
+			switch {
+			case mastFieldLoad(bin.X, "size") && mastFieldLoad(bin.Y, thresh):
+				sizeV = bin.X
+			case mastFieldLoad(bin.Y, "size") && mastFieldLoad(bin.X, thresh):
+				sizeV = bin.Y
+				switch op {
+				case token.LSS:
+					op = token.GTR
+				case token.GTR:
+					op = token.LSS
+				case token.LEQ:
+					op = token.GEQ
+				case token.GEQ:
+					op = token.LEQ
+				}
+			default:
+				continue
+			}
+			if !f.Truth {
+				switch op {
+				case token.LSS:
+					op = token.GEQ
+				case token.GEQ:
+					op = token.LSS
+				case token.LEQ:
+					op = token.GTR
+				case token.GTR:
+					op = token.LEQ
+				default:
+					continue
+				}
+			}
+			// does the test see the size before or after this operation's own update?
+			d := int64(0)
+			ld, _ := ir.ResolveCell(sizeV).(*ssa.UnOp)
+			var upd *ssa.Store
+			for _, b := range fn.Blocks {
+				for _, in := range b.Instrs {
+					if _, fld, st, ok := mastFieldStore(in); ok && fld == "size" {
+						upd = st
+					}
+				}
+			}
+			if upd == nil || ld == nil {
+				c.Undecided(fn, P.InstrPos(tcall), "size update", "cannot relate the size test to the update of Mast.size in "+ir.FuncName(fn))
+				return nil, false
+			}
+			after := ir.InstrReaches(upd, ld)
+			before := ir.InstrReaches(ld, upd)
+			if after == before {
+				c.Undecided(fn, P.InstrPos(ld), "size test both before and after the size update", "the test of Mast.size can run on either side of the update")
+				return nil, false
+			}
+			if before {
+				// the test sees s∓1
+				if lower {
+					d = -1 // Insert: tested value = s - 1
+				} else {
+					d = +1 // Delete: tested value = s + 1
+				}
+			}
+			var cc int64
+			if lower {
+				switch op {
+				case token.GEQ: // s + d ≥ T
+					cc = -d
+				case token.GTR:
+					cc = -d + 1
+				default:
+					c.Violation(fn, P.InstrPos(bin), "growth is not conditioned on the size reaching the threshold", "comparison "+op.String()+" between size and "+thresh)
+					return nil, false
+				}
+			} else {
+				switch op {
+				case token.LEQ: // s + d ≤ T
+					cc = -d
+				case token.LSS:
+					cc = -d - 1
+				default:
+					c.Violation(fn, P.InstrPos(bin), "shrinking is not conditioned on the size falling to the threshold", "comparison "+op.String()+" between size and "+thresh)
+					return nil, false
+				}
+			}
+			when := "after"
+			if before {
+				when = "before"
+			}
+			return &bound{cc, bin, fmt.Sprintf("size %s %s, tested %s the size update", op, thresh, when)}, true
+		}
+		c.Violation(fn, P.InstrPos(tcall), target.Name()+" not conditioned on the size threshold", "the call of "+target.Name()+" in "+ir.FuncName(fn)+" is not dominated by a comparison of Mast.size with Mast."+thresh)
+		return nil, false
+	}
+	g, ok1 := find(ins, grow, "growAfterSize", true)
+	s, ok2 := find(del, shrink, "shrinkBelowSize", false)
+	if ok1 && ok2 {
+		if s.c == g.c-1 {
+			c.OK(P.InstrPos(s.at), "size boundary of grow and shrink", fmt.Sprintf("grow when s ≥ growAfterSize%+d (%s); shrink when s ≤ shrinkBelowSize%+d (%s): adjacent", g.c, g.txt, s.c, s.txt), false)
+		} else {
+			c.Violation(del, P.InstrPos(s.at), "grow and shrink put the size boundary at different places",
+				fmt.Sprintf("Insert grows when the new size s ≥ growAfterSize%+d (%s), Delete shrinks when the new size s ≤ shrinkBelowSize%+d (%s); growAfterSize at height h equals shrinkBelowSize at height h+1, so a tree that has exactly that many entries has a different height depending on whether it got there by inserting or by deleting: equal contents, different roots", g.c, g.txt, s.c, s.txt))
+		}
+	}
+	// (2) both loops consult the root's keys
+	consults := func(fn, target *ssa.Function) (bool, string) {
+		var tcall ssa.Instruction
+		for _, ci := range CallsOf(fn) {
+			if ir.Callee(ci.Common()) == target {
+				tcall = ci
+			}
+		}
+		if tcall == nil {
+			return false, ""
+		}
+		var keyTest func(cond ssa.Value, d int) (bool, string)
+		keyTest = func(cond ssa.Value, d int) (bool, string) {
+			if d > 2 {
+				return false, ""
+			}
+			switch x := cond.(type) {
+			case *ssa.UnOp:
+				if x.Op == token.NOT {
+					return keyTest(x.X, d)
+				}
+			case *ssa.BinOp:
+				for _, o := range []ssa.Value{x.X, x.Y} {
+					if call, ok := o.(*ssa.Call); ok {
+						if b, ok := call.Call.Value.(*ssa.Builtin); ok && b.Name() == "len" {
+							if _, f, ok := nodeSliceRoot(call.Call.Args[0]); ok && f == "Key" {
+								return true, "len(node.Key)"
+							}
+						}
+					}
+				}
+			case *ssa.Extract:
+				if call, ok := x.Tuple.(*ssa.Call); ok {
+					return keyTest(call, d)
+				}
+			case *ssa.Call:
+				h := ir.Callee(x.Call)
+				if h == nil || h.Blocks == nil || !isOwn(c.P, h) {
+					return false, ""
+				}
+				// a (bool[, error]) helper that looks at a node's keys: ranges over / measures node.Key
+				for _, b := range h.Blocks {
+					for _, in := range b.Instrs {
+						switch y := in.(type) {
+						case *ssa.Call:
+							if bi, ok := y.Call.Value.(*ssa.Builtin); ok && bi.Name() == "len" {
+								if _, f, ok := nodeSliceRoot(y.Call.Args[0]); ok && f == "Key" {
+									return true, h.Name() + " (measures node.Key)"
+								}
+							}
+						case *ssa.Range:
+							if _, f, ok := nodeSliceRoot(y.X); ok && f == "Key" {
+								return true, h.Name() + " (ranges over node.Key)"
+							}
+						case *ssa.IndexAddr:
+							if _, f, ok := nodeSliceRoot(y.X); ok && f == "Key" {
+								return true, h.Name() + " (reads node.Key)"
+							}
+						}
+					}
+				}
+			}
+			return false, ""
+		}
+		// a key test that decides whether the loop goes on to (or stops before) the call
+		for _, b := range fn.Blocks {
+			if !inCycle(b) || len(b.Instrs) == 0 {
+				continue
+			}
+			iff, ok := b.Instrs[len(b.Instrs)-1].(*ssa.If)
+			if !ok {
+				continue
+			}
+			if ok, how := keyTest(iff.Cond, 0); ok && ir.CanReach(b, tcall.Block()) {
+				return true, how
+			}
+		}
+		return false, ""
+	}
+	if ok, how := consults(ins, grow); ok {
+		c.OK(P.Pos(ins.Pos()), "Insert's growth loop consults the root's keys", how, false)
+	} else {
+		c.Violation(ins, P.Pos(ins.Pos()), "growth decided by size alone", "Insert's growth loop no longer asks whether a root key belongs above the current height")
+	}
+	if ok, how := consults(del, shrink); ok {
+		c.OK(P.Pos(del.Pos()), "Delete's shrink loop consults the root's keys", how, false)
+	} else {
+		c.Violation(del, P.Pos(del.Pos()), "shrinking decided by size alone",
+			"Insert raises the height only when a root key belongs higher (height = min(highest key layer, size rule)), but Delete lowers it only by size: after the last key of the top layer is deleted the tree keeps a key-less root and its height, while a tree built from the same entries is one level lower — equal contents, different roots")
+	}
+}
